@@ -209,7 +209,9 @@ func (l *SnowflakeListener) Close() error {
 func (l *SnowflakeListener) acceptStreams(conn *kcp.UDPSession) error {
 	// Look up the IP address associated with this KCP session, via the
 	// ClientID that is returned by the session's RemoteAddr method.
+	vhook("srv.session", conn.RemoteAddr())
 	addr, ok := clientIDAddrMap.Get(conn.RemoteAddr().(turbotunnel.ClientID))
+	vhook("srv.accept", conn.RemoteAddr(), addr, ok)
 	if !ok {
 		// This means that the map is tending to run over capacity, not
 		// just that there was not client_ip on the incoming connection.
@@ -235,6 +237,7 @@ func (l *SnowflakeListener) acceptStreams(conn *kcp.UDPSession) error {
 			}
 			return err
 		}
+		vhook("srv.stream", conn.RemoteAddr(), stream)
 		l.queueConn(&SnowflakeClientConn{Conn: stream, address: addr})
 	}
 }
